@@ -127,7 +127,31 @@ class RIThing(RemoteInterface):
     x = UnconstrainedMethod()
 
 
+class RIRead(RemoteInterface):
+    hi = UnconstrainedMethod()
+
+
+class RIOther(RemoteInterface):
+    x = UnconstrainedMethod()
+
+
 IFACE_METHODS = ["hi", "x"]
+# the harness's own table of what each RemoteInterface exposes (not read from foolscap)
+IFACES = {"RIThing": (RIThing, ["hi", "x"]), "RIRead": (RIRead, ["hi"]), "RIOther": (RIOther, ["x"])}
+
+
+def declared_iface(obj):
+    """Independent computation (zope only, never Referenceable.getInterface) of the RemoteInterface an object exposes now:
+    -> (method names or None, 'class'|'instance'|None).  More than one RemoteInterface: ('several', ...)"""
+    import zope.interface as zi
+    provided = set(zi.providedBy(obj))
+    found = [(n, names) for n, (ri, names) in sorted(IFACES.items()) if ri in provided]
+    if not found:
+        return None, None
+    if len(found) > 1:
+        return "several", None
+    cls_level = IFACES[found[0][0]][0] in set(zi.implementedBy(type(obj)))
+    return list(found[0][1]), ("class" if cls_level else "instance")
 
 
 class Base(Referenceable):
@@ -182,6 +206,14 @@ class I1(Base):
     pass
 
 
+class P1b(P1):
+    """a subclass of a class that declares no RemoteInterface"""
+
+
+class I2(I1):
+    """a subclass of a class that declares RIThing: inherits the declaration"""
+
+
 add_method(P1, "remote_x")
 for _n in ("remote_", "remote___init__", "remote_hé", "remote_remote_hi", "remote_hi.x", "x", "__init__x"):
     add_method(P2, _n)
@@ -214,7 +246,8 @@ class RC3(RCBase):
 
 
 RCS = {1: RC1, 2: RC2, 3: RC3}
-KINDS = {1: P1, 2: P2, 3: P1, 4: P2, 5: I1, 6: I1}      # world ids of Referenceables
+KINDS = {1: P1, 2: P2, 3: P1, 4: P2, 5: I1, 6: I1, 9: P1, 10: P1b, 11: I2, 12: P1b}   # world ids of Referenceables
+DECLARABLE = [1, 2, 3, 4, 9, 10, 12]                    # instances of classes without a RemoteInterface: may declare their own
 CALLABLES = {7: (1, "cb_a"), 8: (2, "cb_b")}             # world ids of bound methods: (owner, method)
 HANDLER_NAMES = {"dyn-3": 3, "dyn-5": 5, "dyn-6": 6}     # names the application's lookup handler may serve (Serve events)
 PRIV_NAMES = ["priv.a", "priv.b", "priv.c"]              # copytypes of classes registered in PRIVATE registries only
@@ -326,6 +359,33 @@ class System:
             self.tub.stopService()
             E.turn()
 
+    def declare(self, wid, iname, how):
+        """declare (or withdraw) a RemoteInterface on the INSTANCE, the zope way"""
+        import zope.interface as zi
+        obj = self.objs[wid]
+        current = [ri for ri, _ in IFACES.values() if ri in set(zi.directlyProvidedBy(obj))]
+        if iname is None:
+            if how == "nolonger":
+                for ri in current:
+                    zi.noLongerProvides(obj, ri)
+            else:
+                zi.directlyProvides(obj)
+        else:
+            ri = IFACES[iname][0]
+            if how == "also" and not current:
+                zi.alsoProvides(obj, ri)
+            else:
+                zi.directlyProvides(obj, ri)
+
+    def decls(self):
+        """instance-level declarations now: wid -> method names"""
+        out = {}
+        for wid in DECLARABLE:
+            names, level = declared_iface(self.objs[wid])
+            if names is not None:
+                out[wid] = names
+        return out
+
     def register_private(self, name, cls, which, how):
         """an application class registered for pass-by-copy in a PRIVATE registry, in one of the four documented ways"""
         reg = self.priv[which]
@@ -361,7 +421,7 @@ class System:
     def snapshot(self):
         return dict(A=self.exports("A"), B=self.exports("B"), aliveA=not self.br["A"].disconnected,
                     aliveB=not self.br["B"].disconnected, names=self.names(), rnames=self.rnames(),
-                    nextA=self.peek_next("A"), nextB=self.peek_next("B"))
+                    nextA=self.peek_next("A"), nextB=self.peek_next("B"), decl=self.decls())
 
     def peek_next(self, c):
         # itertools.count repr is "count(n)"
@@ -397,6 +457,8 @@ class System:
                         pass
                 elif kind == "RegisterCopyPriv":
                     self.register_private(ev[1], ev[2], ev[3], ev[4])
+                elif kind == "Declare":
+                    self.declare(ev[1], ev[2], ev[3])
                 elif kind == "Serve":
                     if not self.handler_on:
                         self.tub.registerNameLookupHandler(self.handler)
@@ -475,17 +537,16 @@ class System:
 
 
 def world_description(sysm):
-    """what the model needs to know about the application objects, read from the live objects"""
+    """what the model needs to know about the application objects, read from the live objects WITHOUT calling
+    Referenceable.getInterface (which memoises): attributes, and the RemoteInterface the object's CLASS declares"""
+    import zope.interface as zi
     w = {}
     for wid, o in sysm.objs.items():
         if wid in CALLABLES:
             w[wid] = dict(kind="KCallable", attrs=[], iface=None)
         else:
-            iface = o.getInterface()
-            names = None
-            if iface is not None:
-                names = [n for n in IFACE_METHODS if iface.get(n)]
-                # any other name the interface knows would be a harness error
-                assert sorted(names) == sorted(IFACE_METHODS)
-            w[wid] = dict(kind="KObj", attrs=sorted(set(dir(o))), iface=names)
+            impl_ = set(zi.implementedBy(type(o)))
+            found = [names for n, (ri, names) in sorted(IFACES.items()) if ri in impl_]
+            assert len(found) <= 1
+            w[wid] = dict(kind="KObj", attrs=sorted(set(dir(o))), iface=(list(found[0]) if found else None))
     return w
